@@ -687,6 +687,9 @@ func c04Fnv(s string) string {
 
 func c04Exec(line string) string {
 	f := fields(line)
+	if len(f) >= 2 && (f[0] == "t" || f[0] == "T") {
+		return c04TierExec(f) // the three-store chain (c04_tier.go)
+	}
 	if len(f) < 2 || (f[0] != "h" && f[0] != "v" && f[0] != "k" && f[0] != "w") {
 		return "bad-case"
 	}
@@ -1684,4 +1687,5 @@ func c04Gen(tier string, seed uint64, out *bufio.Writer) {
 	for i := 0; i < n; i++ {
 		c04GenHistory(r, out, !r.chance(1, 5))
 	}
+	c04GenTier(tier, r, out) // round 9: the three-store chain, after the older streams (their cases stay as they were)
 }
